@@ -467,7 +467,7 @@ func checkConjCollider(c conjCase, o *kit.Obs) error {
 	tc := model3d.TransformCollider(x.Build().(model3d.DistTransform), orig)
 	f := x.DistFactor()
 	what := fmt.Sprintf("TransformCollider(%+v, %s %+v)", x, s.Kind, s)
-	for _, r := range c.Rays {
+	for ri, r := range c.Rays {
 		inner := &model3d.Ray{Origin: m3.C3(r[0]), Direction: m3.C3(r[1])}
 		outer := &model3d.Ray{Origin: m3.C3(x.RefApply(r[0])), Direction: m3.C3(x.RefApplyDir(r[1]))}
 		type hit struct {
@@ -516,6 +516,39 @@ func checkConjCollider(c conjCase, o *kit.Obs) error {
 		first, ok := tc.FirstRayCollision(outer)
 		if ok != (no > 0) || (ok && math.Abs(first.Scale-ho[0].s) > 1e-9*(1+ho[0].s)) {
 			return fmt.Errorf("%s: ray %v: FirstRayCollision (%v, %v) disagrees with the smallest of %d collisions", what, r, first.Scale, ok, no)
+		}
+		if ok && (no == 1 || ho[1].s-ho[0].s > 1e-6*(1+ho[0].s)) {
+			fn := m3.V3(first.Normal)
+			if fn.Dist(ho[0].n) > 1e-6 {
+				return fmt.Errorf("%s: ray %v: FirstRayCollision reports normal %v, the same collision enumerated by RayCollisions has normal %v", what, r, fn, ho[0].n)
+			}
+		}
+		// queries are pure: a callback may cast further rays at the same collider (shadow rays do) and the
+		// enumeration in progress still reports the collisions of its own ray; the ray argument is only read
+		if no > 0 {
+			r2 := c.Rays[(ri+1)%len(c.Rays)]
+			other := &model3d.Ray{Origin: outer.Origin.Add(outer.Direction.Scale(0.37)), Direction: outer.Direction.Scale(-1.7)}
+			if len(c.Rays) > 1 {
+				other = &model3d.Ray{Origin: m3.C3(x.RefApply(r2[0])), Direction: m3.C3(x.RefApplyDir(r2[1]))}
+			}
+			before := *outer
+			var hr []hit
+			nr := tc.RayCollisions(outer, func(rc model3d.RayCollision) {
+				hr = append(hr, hit{rc.Scale, m3.V3(rc.Normal)})
+				tc.FirstRayCollision(other)
+				tc.RayCollisions(other, nil)
+			})
+			if *outer != before {
+				return fmt.Errorf("%s: RayCollisions changed the ray it was given from %v to %v", what, before, *outer)
+			}
+			sort.Slice(hr, func(a, b int) bool { return hr[a].s < hr[b].s })
+			same := nr == no && len(hr) == len(ho)
+			for k := 0; same && k < len(hr); k++ {
+				same = hr[k] == ho[k]
+			}
+			if !same {
+				return fmt.Errorf("%s: ray %v: %d collisions %v when enumerated alone, %d collisions %v when the callback casts another ray at the same collider", what, r, no, ho, nr, hr)
+			}
 		}
 	}
 	for _, p := range c.Pts {
